@@ -49,7 +49,18 @@ def run_projects(chk, asts, again=0, config="native", want_oracles=("C01", "C02"
         r.setdefault("model", []).append(model)
         # with several scenarios the implementation's final project end is the last scenario's
         obs_end = obs["end"] if si == len(obs["scenarios"]) - 1 else model["end"]
-        r["diffs"] += [f"[{sc['id']}] " + d for d in modelio.compare(p, model, sc, obs_end)]
+        ds = modelio.compare(p, model, sc, obs_end)
+        if len(obs["scenarios"]) > 1:
+            # the implementation's warning list is per run, not per scenario: compare the union below
+            ds = [d for d in ds if not d.startswith("warnings:")]
+        r["diffs"] += [f"[{sc['id']}] " + d for d in ds]
+    for r in results:
+        obs = r["obs"]
+        if obs and "error" not in obs and len(obs["scenarios"]) > 1 and len(r.get("model", [])) == len(obs["scenarios"]):
+            wm = set().union(*[set(m["warnings"]) for m in r["model"]])
+            wo = {w for w in obs["warnings"] if w in ("deadlock", "unscheduled_tasks")}
+            if wm != wo:
+                r["diffs"].append(f"warnings (all scenarios): model {sorted(wm)} impl {sorted(wo)}")
     for r in results:
         obs = r["obs"]
         if not obs or "error" in obs:
